@@ -145,7 +145,9 @@ func runC17(e *Env) {
 		return flow.CalleeIs(c, "os/exec", "Cmd.Run") || flow.CalleeIs(c, "os/exec", "Cmd.Wait") || flow.CalleeIs(c, "os/exec", "Cmd.Output") || flow.CalleeIs(c, "os/exec", "Cmd.CombinedOutput")
 	}
 	isFlush := func(c *ssa.Call) bool { return flow.CalleeIs(c, "bufio", "Writer.Flush") }
-	isClose := func(c *ssa.Call) bool { return flow.CalleeIs(c, "os", "File.Close") || flow.CalleeIs(c, "os", "File.Sync") }
+	isClose := func(c *ssa.Call) bool {
+		return flow.CalleeIs(c, "os", "File.Close") || flow.CalleeIs(c, "os", "File.Sync")
+	}
 	for _, rn := range renames {
 		for _, req := range []struct {
 			name string
